@@ -11,6 +11,25 @@ from ..lean import fbits, ints, parse_floats, parse_ints, run_driver
 ID = 'C19'
 DRIVERS = ('driver_metrics',)
 THEOREMS = [
+    'PbBss.C19.sisdr_def',
+    'PbBss.C19.sisdr_scale',
+    'PbBss.C19.sisdr_leading_index',
+    'PbBss.C19.input_sxr_decomp',
+    'PbBss.C19.input_sxr_decomp_avg_channels',
+    'PbBss.C19.input_sxr_single_source',
+    'PbBss.C19.input_sxr_sdr_le_avg_sources',
+    'PbBss.C19.input_sxr_common_scale',
+    'PbBss.C19.input_sxr_image_scale',
+    'PbBss.C19.output_sxr_selection_max',
+    'PbBss.C19.output_sxr_selection_first_max',
+    'PbBss.C19.output_sxr_too_few_outputs',
+    'PbBss.C19.output_sxr_decomp',
+    'PbBss.C19.output_sxr_common_scale',
+    'PbBss.C19.output_sxr_image_scale',
+    'PbBss.C19.output_sxr_image_scale_avg',
+    'PbBss.C19.output_sxr_perm_invariant',
+    'PbBss.C19.set_get_snr',
+    'PbBss.C19.return_dict_shape',
 ]
 ASSUMPTIONS = [
     'real float64 signals with non-zero reference / image / noise power (the implementation returns nan or inf otherwise)',
@@ -326,7 +345,7 @@ def search(ctx):
             for K, D in ((1, 1), (2, 2), (2, 3), (3, 5)):
                 ctx.run(return_dict_container, function=fn, return_dict=rd, K=K, D=D, T=16, seed=int(rng.integers(1 << 30)))
                 ctx.count(f'search-return_dict-{fn}-{rd!r}')
-    n = ctx.n(120, 3000)
+    n = ctx.n(400, 6000)
     for i in range(n):
         if ctx.out_of_time(reserve=30):
             break
@@ -442,7 +461,7 @@ def corr(ctx):
     for fn in ('input_sxr', 'output_sxr'):
         for arg in RETARGS:
             add(f'retdict {fn} {_retarg_tokens(arg)}', op=f'return_dict[{fn}]', fn=fn, arg=arg)
-    n = ctx.n(60, 1200)
+    n = ctx.n(150, 2000)
     for i in range(n):
         T = gen_T(rng, ctx.tier)
         if T > 512 and i % 5:
